@@ -2,7 +2,7 @@
 from fractions import Fraction as F
 
 from ..common import seed_rng
-from ..meshgen import INITIAL_GRIDS, Batch, enumerate_histories, random_op, op_json
+from ..meshgen import INITIAL_GRIDS, Batch, enumerate_histories, random_op, op_json, deep_histories
 from ..meshlib import oracle_mesh, PyMesh
 
 PROP_MODS = ['Stbem.Props.C10']
@@ -65,6 +65,18 @@ def correspond(res, tier):
 
 def search(res, tier, boost=False):
     rng = seed_rng(res.seed, 'C10s')
+    # deep refinement towards a point (binary64 coordinates, depth 22 / 30): tolerance-based pairing would break here
+    for glue, X, T, run in deep_histories(rng, 10 if tier == 'quick' else 60, 22 if tier == 'quick' else 30):
+        pm = PyMesh.create(glue, X, T)
+        ops, status = run(pm)
+        hist = dict(glue=glue, X=X, T=T, ops=[list(o) for o in ops], coordinates='binary64')
+        res.count(('deep', glue, tuple(X), tuple(T), len(ops)), True)
+        if status == 'err':
+            res.violation('C10:refinement-raises-deep', dict(history=hist))
+            continue
+        bad = [b for b in oracle_mesh(pm.mesh, X, T, glue, check_nbrs=True) if b.startswith(('neighbours', 'flags', '1-irregular'))]
+        if bad:
+            res.violation('C10:' + bad[0].split(':')[0] + ':deep', dict(clause=bad[0], history=hist))
     n = (6 if tier == 'quick' else 60) * (3 if boost else 1)
     for h in range(n):
         glue, X, T = INITIAL_GRIDS[rng.randrange(len(INITIAL_GRIDS))]
